@@ -136,6 +136,14 @@ def handle : List String → String
     match parseEVList enh, parseEVList enl with
     | some a, some b => if a.length == b.length then showEA (sigmoidAE (a.zip b)) else "bad-op"
     | _, _ => "bad-op"
+  | ["atanh", "S", e2l, e2h] =>
+    match parseEV e2l, parseEV e2h with
+    | some a, some b => showE (atanhIE a b)
+    | _, _ => "bad-op"
+  | ["atanh", "A", e2l, e2h] =>
+    match parseEVList e2l, parseEVList e2h with
+    | some a, some b => if a.length == b.length then showEA (atanhAE (a.zip b)) else "bad-op"
+    | _, _ => "bad-op"
   | ["tanh", "S", e2l, e2h] =>
     match parseEV e2l, parseEV e2h with
     | some a, some b => showE (tanhIE a b)
